@@ -541,7 +541,8 @@ def gen_op(rng, st):
         # same format but another grid is opened (named format) or probed (no format)
         rw['between'] = {'spec': gen_spec(rng, fmt), 'how': rng.choice(['open', 'probe', 'open'])}
     ops.append(rw)
-    ops.append({'op': 'stubread', 'cid': cid, 'hdr_nz0': rng.random() < 0.5})
+    ops.append({'op': 'stubread', 'cid': cid, 'hdr_nz0': rng.random() < 0.5,
+                'little_endian': rng.random() < 0.4})
     st.queue = ops
     return st.queue.pop(0)
 
@@ -849,6 +850,30 @@ def apply(st, op):
             _raise(st, 'C09', 'reference-file-read-differently',
                    '%s file (%s): %s' % (fmt, _desc(spec), '; '.join(x[1] for x in d[:3])),
                    {'format': fmt, 'field': d[0][0], 'dir': 'ref-encoder->lib-reader'})
+        if fmt == 'uamiv' and op.get('little_endian'):
+            # the same file as a little-endian machine writes it, read with endian='little'
+            import PseudoNetCDF as pnc
+            p5 = p3 + '.le'
+            with open(p5, 'wb') as fh:
+                fh.write(camx.gridded_to_little_endian(buf))
+            w.probe('little_endian_reference_file')
+            try:
+                gl = canon_from_library(pnc.pncopen(p5, format='uamiv', endian='little'), fmt)
+            except BaseException as e:
+                _raise(st, 'C09', 'reference-file-not-read',
+                       'library reader (endian=little) on a little-endian reference-encoded '
+                       'uamiv file (%s): %s: %s' % (_desc(spec), type(e).__name__, e),
+                       {'format': fmt, 'error': type(e).__name__, 'endian': 'little',
+                        'one_cell_grid': spec['nx'] * spec['ny'] == 1})
+                gl = None
+            if gl is not None:
+                d = compare(truth, gl, 'library reader (endian=little) on the little-endian '
+                            'reference-encoded file')
+                if d:
+                    _raise(st, 'C09', 'reference-file-read-differently',
+                           'uamiv file (%s): %s' % (_desc(spec), '; '.join(x[1] for x in d[:3])),
+                           {'format': fmt, 'field': d[0][0], 'endian': 'little',
+                            'dir': 'ref-encoder->lib-reader'})
         # what the library read from the reference file, written again by the library
         # writer, must conform to the layout and decode to the same content
         if op.get('rewrite_stub', True):
